@@ -318,6 +318,10 @@ impl TerminalHistory {
                 Self::report_error("Failed to read from file");
                 break;
             };
+            // A blank line is never submitted, so it cannot be a history entry
+            if line.trim().is_empty() {
+                continue;
+            }
             history.push(line);
         }
         history
